@@ -298,6 +298,7 @@ def check(ctx):
         todo = [(p_.start, 0)]
         hits = []
         reach2 = False
+        last_decl = [None]       # (informative: the declarator-bearing call seen last on the walk; it names the finding)
         while todo:
             node, stt = todo.pop()
             for e_ in out_.get(node, []):
@@ -313,13 +314,14 @@ def check(ctx):
                         if cur == 1 and (can_consume.get(ck) or ck in DECLARATORS):
                             cur = 2
                         if ck in DECLARATORS or has_decl.get(ck):
+                            last_decl[0] = ev[1]
                             if decl_then_consume.get(ck):
                                 cur = 2
                             elif cur == 0:
                                 cur = 1
                     elif is_reg(ev):
                         if cur == 2 and want_reg:
-                            hits.append((ev[1], ev[3] if len(ev) > 3 else 0))
+                            hits.append((ev[1], last_decl[0]))
                         cur = 0          # the names parsed so far are registered now
                     if cur == 2:
                         reach2 = True
@@ -351,10 +353,13 @@ def check(ctx):
         ok = not hits
         ctx.oblige("R-C04.6", f"{_e16.sig_text(k)}: names are registered before the tokens after their declarator are consumed", ok,
                    sample={"rule": "R-C04.6", "production": _e16.sig_text(k), "registrations reached after a declarator AND later consumption": sorted(set(hits))[:4]})
-        if hits:
-            late.setdefault(k[0], set()).update(h[0] for h in hits)
-    for prod, regs in sorted(late.items()):
-        ctx.violation("R-C04.6", f"late-registration:{prod}", f"in {prod} the registration of declared names ({', '.join(sorted(regs))}) is reached only after tokens that FOLLOW a declarator have been consumed "
+        for reg_, _d in hits:
+            late.setdefault(reg_, set()).add(k[0])
+    # one finding per registering call (what is late), whichever productions the path runs through: splitting or merging productions moves no key
+    for reg_, prods in sorted(late.items()):
+        prod = sorted(prods)[0]
+        regs = {reg_}
+        ctx.violation("R-C04.6", f"late-registration:{reg_}", f"in {', '.join(sorted(prods))} the registration of declared names ({', '.join(sorted(regs))}) is reached only after tokens that FOLLOW a declarator have been consumed "
                       "(an initialiser, the next declarator of the list, a parameter list's closing parenthesis, a function body): identifiers lexed in between are classified with the old meaning of the name - "
                       "`typedef int T; void f(void){ int T = 2, y = (T) - 1; }` parses `(T) - 1` as a cast", file=px.rel, function=f"CParser.{prod}")
     if n6 < 3:
